@@ -97,13 +97,96 @@ func CalleeName(cc *ssa.CallCommon) string {
 	return ""
 }
 
+var normMemo = map[*ssa.CallCommon]*ssa.CallCommon{}
+
+// NormCall sees through a one-line wrapper of a math/big operation: for a call of a repository
+// function whose whole body is `return <fresh big value>.Op(<its parameters / constants>)`
+// (clone(x) = big.NewInt(0).Set(x), sub(a, b) = new(big.Int).Sub(a, b), neg(x) …) it returns
+// the call of Op itself with the wrapper's arguments in place of the parameters; any other call
+// is returned unchanged. Rules that recognise big.NewInt(0).Set(x) as "a copy of x" then see
+// clone(x) the same way.
+func NormCall(cc *ssa.CallCommon) *ssa.CallCommon {
+	if n, ok := normMemo[cc]; ok {
+		return n
+	}
+	out := cc
+	defer func() { normMemo[cc] = out }()
+	h := cc.StaticCallee()
+	if cc.IsInvoke() || h == nil || len(h.Blocks) != 1 || h.Pkg == nil || !strings.HasPrefix(h.Pkg.Pkg.Path(), ModPath) || h.Signature.Recv() != nil || h.Signature.Results().Len() != 1 {
+		return out
+	}
+	b := h.Blocks[0]
+	ret, ok := b.Instrs[len(b.Instrs)-1].(*ssa.Return)
+	if !ok || len(ret.Results) != 1 {
+		return out
+	}
+	inner, ok := Unwrap(ret.Results[0]).(*ssa.Call)
+	if !ok {
+		return out
+	}
+	op := inner.Call.StaticCallee()
+	if op == nil || op.Pkg == nil || op.Pkg.Pkg.Path() != "math/big" || op.Signature.Recv() == nil || len(inner.Call.Args) == 0 {
+		return out
+	}
+	fresh := func(v ssa.Value) bool {
+		switch x := Unwrap(v).(type) {
+		case *ssa.Alloc:
+			return true
+		case *ssa.Const:
+			return true
+		case *ssa.Call:
+			n := CalleeName(&x.Call)
+			if n == "math/big.NewInt" || n == "math/big.NewFloat" {
+				_, isConst := Unwrap(x.Call.Args[0]).(*ssa.Const)
+				return isConst
+			}
+		}
+		return false
+	}
+	if !fresh(inner.Call.Args[0]) {
+		return out
+	}
+	// every instruction of the body serves that one expression
+	calls := 0
+	for _, in := range b.Instrs {
+		if _, isCall := in.(*ssa.Call); isCall {
+			calls++
+		}
+	}
+	if calls > 4 {
+		return out
+	}
+	args := []ssa.Value{inner.Call.Args[0]}
+	for _, a := range inner.Call.Args[1:] {
+		if p, isParam := Unwrap(a).(*ssa.Parameter); isParam {
+			idx := -1
+			for i, q := range h.Params {
+				if q == p {
+					idx = i
+				}
+			}
+			if idx < 0 || idx >= len(cc.Args) {
+				return out
+			}
+			args = append(args, cc.Args[idx])
+			continue
+		}
+		if !fresh(a) {
+			return out
+		}
+		args = append(args, a)
+	}
+	out = &ssa.CallCommon{Value: op, Args: args}
+	return out
+}
+
 // Sites lists every call instruction of fn (not of nested closures) in block/instruction order.
 func Sites(fn *ssa.Function) []*Site {
 	var out []*Site
 	for _, b := range fn.Blocks {
 		for _, in := range b.Instrs {
 			if ci, ok := in.(ssa.CallInstruction); ok {
-				cc := ci.Common()
+				cc := NormCall(ci.Common())
 				out = append(out, &Site{Fn: fn, Instr: ci, Common: cc, Callee: CalleeName(cc)})
 			}
 		}
@@ -856,6 +939,12 @@ func (c *Ctx) Helpers(fn *ssa.Function) []*ssa.Function {
 						only = false
 					}
 				}
+				// a helper shared by siblings (the three executors' checkMultiSignature, the two
+				// delegate handlers' checkDelegateFunds) is part of each caller's group as well,
+				// as long as it is small: what it does, each of its callers does
+				if !only && sharedHelper(h) {
+					only = true
+				}
 				if only {
 					group[h] = true
 					out = append(out, h)
@@ -869,6 +958,15 @@ func (c *Ctx) Helpers(fn *ssa.Function) []*ssa.Function {
 	}
 	sort.Slice(out, func(i, j int) bool { return out[i].String() < out[j].String() })
 	return out
+}
+
+// sharedHelper: an unexported function small enough to be a block that was factored out of
+// several callers (at most 60 instructions in at most 12 blocks... measured in call sites: ≤ 25).
+func sharedHelper(h *ssa.Function) bool {
+	if h.Object() == nil || h.Object().Exported() || len(h.Blocks) > 40 {
+		return false
+	}
+	return len(Sites(h)) <= 40
 }
 
 // GroupSites lists the call sites of fn, of the closures defined in it, and of its helpers.
